@@ -130,6 +130,7 @@ func allJobs(f lib.Flags) []job {
 	jobs = append(jobs, arithJobs(f)...)
 	jobs = append(jobs, batchJobs(f)...)
 	jobs = append(jobs, minAgeJobs(f)...)
+	jobs = append(jobs, reviewJobs(f)...)
 	jobs = append(jobs, migrationJobs(f)...)
 	jobs = append(jobs, pureJobs(f)...)
 	jobs = append(jobs, randomJobs(f)...)
@@ -634,6 +635,8 @@ func (w *world) randomPlan(r *lib.RNG) prunePlan {
 		p.ForkAll = true
 	case 4:
 		p.Observe = true
+	case 5:
+		p.RevertAt = r.Intn(3)
 	}
 	return p
 }
